@@ -21,6 +21,27 @@ CHECKS = {
  "C18": ("exploration", TECH + " (wire tap on every Transmit of every explored history)",
    "Every Transmit returned by send and poll in every explored history is compared byte for byte and address for address with what the application handed in (bytes taken from MessageBuilder::build before send); peer_address while outstanding; non-requests transmitted once and leave no transaction.",
    "Same trusted base as C05; message contents come from the harness generator (all attribute kinds, sealing variants, up to 60 KB).", "§4.1, §5 C18"),
+ "C01": ("exploration", TECH + " (faulty network / hostile peer delivering damaged traffic into a node that runs every decoding entry point; crash = panic, hang = watchdog)",
+   "Seeded exploration: traffic from the library builder and from a foreign peer is damaged by 0..4 drawn wire faults (corruption, bursts, truncation, concatenation with the next message, structure-aware attribute splices, header damage; deliveries of 0..70000 bytes incl. the 16-bit boundary) and run through a receive pipeline that calls every public decoding entry point and every read-only operation (with and without a tracing subscriber) under catch_unwind, overflow checks and a watchdog. Weakest fit of the claimed properties: the quantifier is 'all byte strings'; what the simulator adds is a fault model producing what a deployed parser meets and a pipeline driving all entry points; reach is measured by probes.",
+   "Sampling only. Trusted: the harness's own fault generator reaches the interesting inputs (measured: probes in the evidence file). Library built with overflow-checks and debug-assertions on.", "§5 C01"),
+ "C02": ("exploration", TECH + " (receiver's verdict on fault-damaged traffic compared with a reference decoder; fault-free and fault-injecting profiles separate)",
+   "Differential oracle on every simulated delivery: accept/reject, the named cause, and the decoded view (class, method, id, exposed attribute sequence, first-match lookups) must equal an independently written reference decoder's; over-long buffers must be refused or behave exactly as the buffer cut to its declared length. Traffic comes from the library builder and a foreign peer (wire forms the builder cannot produce) through the fault table.",
+   "Trusted: reference decoder (sim/src/refcodec.rs, ~300 lines, cross-checked on RFC 5769). When several defects coexist any of them may be named. Sampling, not proof.", "§4.2, §5 C02"),
+ "C04": ("fault_enumeration", TECH + " (on-path tampering: all single-bit flips of each sampled sealed message; key mismatch between parties; reference HMAC as judge)",
+   "Per sampled sealed message (library builder and foreign peer, all tails incl. truncated SHA-256, short/long-term keys over arbitrary UTF-8): builder's seal equals the reference MAC; validates under its key with a present-and-correct algorithm; EVERY single-bit flip from byte 0 to the end of the last exposed integrity attribute plus sampled byte substitutions is rejected by parser or validation; six other keys (incl. near-identical: quoted, padded, case-toggled, other credential kind) fail; missing integrity reported.",
+   "Complete only relative to the sampled messages. Trusted: reference HMAC/key derivation over RustCrypto hash primitives. Keys differing only by trailing NUL bytes are the same HMAC key (RFC 2104) and are not counted as 'another key'. For a message carrying two exposed integrity attributes, damage to either must be noticed (reading stated in DESIGN §5 C04).", "§4.2, §5 C04"),
+ "C09": ("fault_enumeration", TECH + " (link corruption: all single-bit flips, all bursts <=32 bits, all byte substitutions of each sampled short fingerprinted message; reference CRC as judge)",
+   "Per sampled fingerprinted message: every emission path of the builder carries the reference CRC of its own bytes; every single-bit flip, every burst 2..32 bits at every offset (short messages; sampled for long), every byte substitution (short; sampled for long) is judged by the reference decoder and by the direct clause 'still ends in FINGERPRINT => rejected' (covers length-field damage, which the CRC cannot see).",
+   "Complete only relative to the sampled messages and the size bounds in the evidence file.", "§4.2, §5 C09"),
+ "C10": ("exploration", TECH + " (foreign peer emitting every tail order; on-path attacker rewriting what follows the first integrity attribute)",
+   "Every order/subset of {MI, MI-SHA256 (16..32 B), FP} after 0..4 ordinary attributes from a foreign peer, and library-built signed messages whose tail is rewritten in flight by an attacker: iteration and lookups must equal the reference exposure list, FINGERPRINT always exposed, validated attribute exposed, exposed prefix unchanged by the rewrite.",
+   "Trusted: reference exposure rule (sim/src/refcodec.rs::exposure), written from the property text.", "§4.2, §5 C10"),
+ "C14": ("exploration", TECH + " (byte-stream segmentation, push/pull interleaving and connection cut against a frame model; full sweep of short streams)",
+   "The real TcpBuffer is fed frame sequences cut into drawn segments with drawn push/pull interleavings and optional connection cut; every pull is compared with a frame model (VecDeque). Plus, per drawn short stream, all 2^(n-1) segmentations x 2 drain patterns.",
+   "Trusted: the 15-line frame model. The sweep is exhaustive only for streams <= 12 bytes / 3 frames.", "§4.3, §5 C14"),
+ "C17": ("fault_enumeration", TECH + " (connection cut / short read at every byte of each sampled message; header-delimited reassembly over a segmented stream)",
+   "Per sampled well-formed message (20 B .. 65552 B): EVERY cut point must answer Truncated{expected, actual} with the exact sizes; header decoder vs full parser on all 160 single-bit header variants; reassembly of 1..4 messages from a randomly segmented stream using only the header decoder and the reported size.",
+   "Complete only relative to the sampled messages.", "§5 C17"),
  "C20": ("exploration", TECH + " (recorded history replayed on another instance, time-shifted, on another thread, and interleaved with unrelated agents)",
    "Every explored history is recorded call by call and replayed four ways on fresh agents; reply sequences must be equal element by element with reported instants shifted by exactly the same constant. Needs no model: the library is compared with itself.",
    "Thread variant is spawn-run-join (the library has no shared mutable state besides a tracing id counter).", "§5 C20"),
